@@ -1,1 +1,342 @@
-From V Require Export C12_Model.
+(* C12_Proofs.v — proofs that the model of checks.go (C12_Model) meets C12_Spec. *)
+From Coq Require Import Lia.
+From V Require Export C12_Spec.
+Open Scope Z_scope.
+
+(* ====================================================================== *)
+(* A. digit strings                                                       *)
+(* ====================================================================== *)
+Lemma is_digit_digit c : is_digit c = true <-> digit c.
+Proof. unfold is_digit, digit. rewrite andb_true_iff, !N.leb_le. tauto. Qed.
+
+Lemma all_digits_Forall s : all_digits s = true <-> Forall digit s.
+Proof.
+  unfold all_digits. rewrite forallb_forall, Forall_forall.
+  split; intros H x Hx; apply is_digit_digit; auto.
+Qed.
+
+Lemma nonempty_digits_iff s : nonempty_digits s = true <-> digits s.
+Proof.
+  unfold digits. destruct s as [|c s].
+  - simpl. split; [discriminate|intros [H _]; congruence].
+  - change (nonempty_digits (c :: s)) with (all_digits (c :: s)). rewrite all_digits_Forall.
+    split; [intros H; split; [discriminate|exact H]|tauto].
+Qed.
+
+Lemma dec_value_app s c : dec_value (s ++ [c]) = dec_value s * 10 + digit_val c.
+Proof. unfold dec_value. rewrite fold_left_app. reflexivity. Qed.
+
+Lemma value_app s c : value (s ++ [c]) = (Z.of_N c - 48) + 10 * value s.
+Proof. unfold value. rewrite rev_unit. reflexivity. Qed.
+
+Lemma dec_value_value s : dec_value s = value s.
+Proof.
+  induction s as [|c s IH] using rev_ind; [reflexivity|].
+  rewrite dec_value_app, value_app, IH. unfold digit_val. lia.
+Qed.
+
+Lemma value_bounds s : Forall digit s -> 0 <= value s < 10 ^ Z.of_nat (length s).
+Proof.
+  induction s as [|c s IH] using rev_ind; intros H.
+  - cbn. lia.
+  - apply Forall_app in H as [H1 H2]. inversion H2 as [|? ? Hc _]; subst.
+    rewrite value_app, app_length. cbn [length]. rewrite Nat.add_1_r, Nat2Z.inj_succ, Z.pow_succ_r by lia.
+    specialize (IH H1). unfold digit in Hc. lia.
+Qed.
+
+Lemma value_lt_pow s n : Forall digit s -> (length s <= n)%nat -> 0 <= value s < 10 ^ Z.of_nat n.
+Proof.
+  intros H L. pose proof (value_bounds s H) as B.
+  assert (10 ^ Z.of_nat (length s) <= 10 ^ Z.of_nat n) by (apply Z.pow_le_mono_r; lia). lia.
+Qed.
+
+Lemma zlen_nat {A} (l : list A) : zlen l = Z.of_nat (length l).
+Proof. reflexivity. Qed.
+
+(* strconv.ParseInt on a string of digits *)
+Lemma parse_int_digits bits s : digits s ->
+  parse_int bits s =
+  if (- int_bound bits <=? value s) && (value s <? int_bound bits) then Some (value s) else None.
+Proof.
+  intros [NE D]. destruct s as [|c r]; [congruence|].
+  pose proof D as D'. inversion D as [|? ? Hc _]; subst. unfold digit in Hc.
+  unfold parse_int.
+  replace (c =? 43)%N with false by (symmetry; apply N.eqb_neq; lia).
+  replace (c =? 45)%N with false by (symmetry; apply N.eqb_neq; lia).
+  apply all_digits_Forall in D'. rewrite D', dec_value_value. reflexivity.
+Qed.
+
+Lemma parse_int64_small s : digits s -> (length s <= 10)%nat -> parse_int 64 s = Some (value s).
+Proof.
+  intros D L. rewrite parse_int_digits by exact D.
+  destruct D as [_ D]. pose proof (value_lt_pow s 10 D L) as B.
+  change (10 ^ Z.of_nat 10) with 10000000000 in B.
+  change (int_bound 64) with 9223372036854775808.
+  rewrite (proj2 (Z.leb_le _ _)) by lia. rewrite (proj2 (Z.ltb_lt _ _)) by lia. reflexivity.
+Qed.
+
+(* ====================================================================== *)
+(* B. int64 arithmetic                                                    *)
+(* ====================================================================== *)
+Lemma wrap64_small z : - 9223372036854775808 <= z < 9223372036854775808 -> wrap64 z = z.
+Proof. intros H. unfold wrap64. rewrite Z.mod_small by lia. lia. Qed.
+
+Lemma wrap64_range z : - 9223372036854775808 <= wrap64 z < 9223372036854775808.
+Proof.
+  unfold wrap64.
+  pose proof (Z.mod_pos_bound (z + 9223372036854775808) 18446744073709551616 ltac:(lia)). lia.
+Qed.
+
+(* one or more whole turns are lost when the product does not fit *)
+Lemma wrap64_overflow z : 9223372036854775808 <= z -> wrap64 z <= z - 18446744073709551616.
+Proof.
+  intros H. unfold wrap64.
+  pose proof (Z.div_mod (z + 9223372036854775808) 18446744073709551616 ltac:(lia)) as E.
+  pose proof (Z.mod_pos_bound (z + 9223372036854775808) 18446744073709551616 ltac:(lia)) as B.
+  assert (1 <= (z + 9223372036854775808) / 18446744073709551616)
+    by (apply Z.div_le_lower_bound; lia).
+  lia.
+Qed.
+
+Lemma max_duration_eq : max_duration = max_int64.
+Proof. reflexivity. Qed.
+
+Lemma saturate_small z : z <= 9223372036854775807 -> saturate z = z.
+Proof. intros H. unfold saturate. rewrite max_duration_eq. unfold max_int64. lia. Qed.
+
+Lemma saturate_big z : 9223372036854775807 <= z -> saturate z = max_int64.
+Proof. intros H. unfold saturate. rewrite max_duration_eq. unfold max_int64 in *. lia. Qed.
+
+(* ====================================================================== *)
+(* C. extractTimeout, Connect                                             *)
+(* ====================================================================== *)
+Lemma extract_connect_ok s :
+  connect_grammar s -> extract_connect s = (Some (connect_duration s), []).
+Proof.
+  intros [D L]. unfold extract_connect.
+  pose proof D as D'. apply nonempty_digits_iff in D'. rewrite D'. cbn [negb].
+  change c12_connect_max_digits with 10. rewrite zlen_nat.
+  replace (10 <? Z.of_nat (length s)) with false by (symmetry; apply Z.ltb_ge; lia).
+  rewrite parse_int64_small by assumption.
+  destruct D as [_ D]. pose proof (value_lt_pow s 10 D L) as B.
+  change (10 ^ Z.of_nat 10) with 10000000000 in B.
+  replace (value s <? 0) with false by (symmetry; apply Z.ltb_ge; lia).
+  unfold ms_ns. rewrite wrap64_small by lia.
+  rewrite Z.quot_mul by lia. rewrite Z.eqb_refl.
+  unfold connect_duration. rewrite saturate_small by lia. reflexivity.
+Qed.
+
+Lemma extract_connect_bad s :
+  ~ connect_grammar s -> exists k, is_timeout_kind k = true /\ extract_connect s = (None, [k]).
+Proof.
+  intros NG. unfold extract_connect.
+  destruct (nonempty_digits s) eqn:ND; cbn [negb].
+  - apply nonempty_digits_iff in ND.
+    change c12_connect_max_digits with 10. rewrite zlen_nat.
+    destruct (10 <? Z.of_nat (length s)) eqn:LL.
+    + exists KTimeoutConnectLong. split; reflexivity.
+    + exfalso. apply NG. split; [exact ND|]. apply Z.ltb_ge in LL. lia.
+  - exists KTimeoutConnectInvalid. split; reflexivity.
+Qed.
+
+Lemma timeout_connect_proof : forall s d,
+  extract_connect s = (Some d, []) <-> connect_grammar s /\ d = connect_duration s.
+Proof.
+  intros s d. split.
+  - intros E. assert (G : connect_grammar s).
+    { destruct (nonempty_digits s) eqn:ND.
+      - apply nonempty_digits_iff in ND. split; [exact ND|].
+        destruct (Nat.le_gt_cases (length s) 10) as [L|L]; [exact L|exfalso].
+        destruct (extract_connect_bad s) as (k & _ & E'); [|congruence].
+        intros [_ L']. lia.
+      - exfalso. destruct (extract_connect_bad s) as (k & _ & E'); [|congruence].
+        intros [D _]. apply nonempty_digits_iff in D. congruence. }
+    split; [exact G|]. rewrite (extract_connect_ok s G) in E. congruence.
+  - intros [G ->]. apply extract_connect_ok; exact G.
+Qed.
+
+Lemma timeout_connect_rejected_proof : forall s,
+  ~ connect_grammar s <-> exists k, is_timeout_kind k = true /\ extract_connect s = (None, [k]).
+Proof.
+  intros s. split; [apply extract_connect_bad|].
+  intros (k & _ & E) G. rewrite (extract_connect_ok s G) in E. discriminate.
+Qed.
+
+(* ====================================================================== *)
+(* D. extractTimeout, gRPC                                                *)
+(* ====================================================================== *)
+Lemma split_last_app ds u : split_last (ds ++ [u]) = Some (ds, u).
+Proof.
+  induction ds as [|c ds IH]; [reflexivity|].
+  cbn [app split_last]. rewrite IH. destruct (ds ++ [u]) eqn:E; [destruct ds; discriminate|reflexivity].
+Qed.
+
+Lemma split_last_some s : forall ds u, split_last s = Some (ds, u) -> s = ds ++ [u].
+Proof.
+  induction s as [|c s IH]; intros ds u H; [discriminate|].
+  destruct s as [|c' s'].
+  - cbn in H. inversion H; subst. reflexivity.
+  - change (split_last (c :: c' :: s')) with
+      (match split_last (c' :: s') with Some (i, l) => Some (c :: i, l) | None => None end) in H.
+    destruct (split_last (c' :: s')) as [[i l]|] eqn:E; [|discriminate].
+    inversion H; subst. cbn [app]. f_equal. apply IH. reflexivity.
+Qed.
+
+Lemma split_last_none s : split_last s = None -> s = [].
+Proof.
+  destruct s as [|c s]; [reflexivity|]. intros H. exfalso.
+  destruct (exists_last (l := c :: s) ltac:(discriminate)) as (ds & u & E).
+  rewrite E, split_last_app in H. discriminate.
+Qed.
+
+Lemma units_agree u : assoc_N u c12_grpc_units = unit_ns u.
+Proof.
+  unfold c12_grpc_units, unit_ns. cbn [assoc_N].
+  repeat match goal with
+         | |- context [(u =? ?k)%N] => destruct (N.eqb_spec u k); [subst; reflexivity|]
+         end.
+  reflexivity.
+Qed.
+
+Lemma unit_ns_cases u ns : unit_ns u = Some ns ->
+  (u = 72%N /\ ns = 3600000000000) \/ (u = 77%N /\ ns = 60000000000) \/ (u = 83%N /\ ns = 1000000000) \/
+  (u = 109%N /\ ns = 1000000) \/ (u = 117%N /\ ns = 1000) \/ (u = 110%N /\ ns = 1).
+Proof.
+  unfold unit_ns.
+  repeat match goal with
+         | |- context [(u =? ?k)%N] => destruct (N.eqb_spec u k); [intros H; inversion H; subst; tauto|]
+         end.
+  discriminate.
+Qed.
+
+Section Grpc.
+Variable fq : Z -> Z -> Z.
+Hypothesis fq_ok : float_quot_ok fq.
+
+(* the round trip through float64 recognises overflow: exact when the product fits,
+   several units away from v when it does not *)
+Lemma float_roundtrip v ns :
+  0 <= v -> 0 < ns <= 3600000000000 ->
+  (fq (wrap64 (v * ns)) ns =? v) = (v * ns <=? 9223372036854775807).
+Proof.
+  intros Hv Hns. destruct (Z.leb_spec (v * ns) 9223372036854775807) as [Fit|Over].
+  - rewrite wrap64_small by nia.
+    destruct (fq_ok (v * ns) ns ltac:(lia)) as [_ Ex]. rewrite Ex by (apply Z.rem_mul; lia).
+    rewrite Z.quot_mul by lia. apply Z.eqb_refl.
+  - apply Z.eqb_neq. intros E.
+    destruct (fq_ok (wrap64 (v * ns)) ns ltac:(lia)) as [Near _]. rewrite E in Near.
+    pose proof (wrap64_overflow (v * ns) ltac:(lia)) as W.
+    pose proof (wrap64_range (v * ns)) as R.
+    set (t := wrap64 (v * ns)) in *.
+    (* t <= v*ns - 2^64 and 2^64 > 3*ns: the truncated quotient is at most v - 3 *)
+    assert (Q : Z.quot t ns <= v - 3).
+    { destruct (Z.le_gt_cases 0 t) as [P|N].
+      - rewrite Z.quot_div_nonneg by lia. apply Z.lt_succ_r. apply Z.div_lt_upper_bound; nia.
+      - assert (Z.quot t ns <= 0).
+        { replace t with (- (- t)) by lia. rewrite Z.quot_opp_l by lia.
+          pose proof (Z.quot_pos (- t) ns ltac:(lia) ltac:(lia)). lia. }
+        assert (3 <= v) by nia. lia. }
+    lia.
+Qed.
+End Grpc.
+
+Section Grpc2.
+Variable fq : Z -> Z -> Z.
+Hypothesis fq_ok : float_quot_ok fq.
+
+Lemma extract_grpc_ok ds u ns :
+  digits ds -> (length ds <= 8)%nat -> unit_ns u = Some ns ->
+  extract_grpc fq (ds ++ [u]) = (Some (saturate (value ds * ns)), []).
+Proof.
+  intros D L U. unfold extract_grpc.
+  rewrite split_last_app, units_agree, U.
+  pose proof D as D'. apply nonempty_digits_iff in D'. rewrite D'. cbn [negb].
+  change c12_grpc_max_digits with 8. rewrite zlen_nat.
+  rewrite (proj2 (Z.ltb_ge _ _)) by lia.
+  rewrite parse_int64_small by (try assumption; lia).
+  destruct D as [_ D]. pose proof (value_lt_pow ds 8 D L) as B.
+  change (10 ^ Z.of_nat 8) with 100000000 in B.
+  rewrite (proj2 (Z.ltb_ge _ _)) by lia.
+  set (v := value ds) in *.
+  destruct (unit_ns_cases u ns U) as [[-> ->]|[[-> ->]|[[-> ->]|[[-> ->]|[[-> ->]|[-> ->]]]]]];
+    cbn [unit_is_float N.eqb Pos.eqb orb].
+  - (* H: the only unit whose product can leave int64 *)
+    rewrite (float_roundtrip fq fq_ok) by lia.
+    destruct (Z.leb_spec (v * 3600000000000) 9223372036854775807).
+    + rewrite wrap64_small by lia. rewrite saturate_small by lia. reflexivity.
+    + rewrite saturate_big by lia. reflexivity.
+  - rewrite (float_roundtrip fq fq_ok) by lia.
+    rewrite (proj2 (Z.leb_le _ _)) by lia.
+    rewrite wrap64_small by lia. rewrite saturate_small by lia. reflexivity.
+  - rewrite (float_roundtrip fq fq_ok) by lia.
+    rewrite (proj2 (Z.leb_le _ _)) by lia.
+    rewrite wrap64_small by lia. rewrite saturate_small by lia. reflexivity.
+  - rewrite wrap64_small by lia. rewrite Z.quot_mul by lia. rewrite Z.eqb_refl.
+    rewrite saturate_small by lia. reflexivity.
+  - rewrite wrap64_small by lia. rewrite Z.quot_mul by lia. rewrite Z.eqb_refl.
+    rewrite saturate_small by lia. reflexivity.
+  - rewrite wrap64_small by lia. rewrite Z.quot_mul by lia. rewrite Z.eqb_refl.
+    rewrite saturate_small by lia. reflexivity.
+Qed.
+
+Lemma grpc_timeout_is_fun s d d' : grpc_timeout_is s d -> grpc_timeout_is s d' -> d = d'.
+Proof.
+  intros (ds & u & ns & -> & _ & _ & U & ->) (ds' & u' & ns' & E & _ & _ & U' & ->).
+  apply app_inj_tail in E as [-> ->]. congruence.
+Qed.
+
+(* every byte string is either a timeout of the grammar, accepted with exactly its duration and
+   no feedback, or rejected with one feedback line *)
+Lemma extract_grpc_total s :
+  (exists d, grpc_timeout_is s d /\ extract_grpc fq s = (Some d, [])) \/
+  (~ grpc_grammar s /\ exists k, is_timeout_kind k = true /\ extract_grpc fq s = (None, [k])).
+Proof.
+  destruct (split_last s) as [[ds u]|] eqn:SL.
+  - apply split_last_some in SL. subst s.
+    destruct (unit_ns u) as [ns|] eqn:U.
+    + destruct (nonempty_digits ds) eqn:ND.
+      * apply nonempty_digits_iff in ND.
+        destruct (Nat.le_gt_cases (length ds) 8) as [L|L].
+        -- left. exists (saturate (value ds * ns)). split.
+           ++ exists ds, u, ns. repeat split; auto; apply ND.
+           ++ apply extract_grpc_ok; assumption.
+        -- right. split.
+           ++ intros (d & ds' & u' & ns' & E & _ & L' & _). apply app_inj_tail in E as [-> ->]. lia.
+           ++ exists KTimeoutGrpcLong. split; [reflexivity|].
+              unfold extract_grpc. rewrite split_last_app, units_agree, U.
+              apply nonempty_digits_iff in ND. rewrite ND. cbn [negb].
+              change c12_grpc_max_digits with 8. rewrite zlen_nat.
+              rewrite (proj2 (Z.ltb_lt _ _)) by lia. reflexivity.
+      * right. split.
+        -- intros (d & ds' & u' & ns' & E & D' & _). apply app_inj_tail in E as [-> ->].
+           apply nonempty_digits_iff in D'. congruence.
+        -- exists KTimeoutGrpcInvalid. split; [reflexivity|].
+           unfold extract_grpc. rewrite split_last_app, units_agree, U, ND. reflexivity.
+    + right. split.
+      * intros (d & ds' & u' & ns' & E & _ & _ & U' & _). apply app_inj_tail in E as [-> ->]. congruence.
+      * exists KTimeoutGrpcUnit. split; [reflexivity|].
+        unfold extract_grpc. rewrite split_last_app, units_agree, U. reflexivity.
+  - apply split_last_none in SL. subst s. right. split.
+    + intros (d & ds' & u' & ns' & E & _). destruct ds'; discriminate.
+    + exists KTimeoutGrpcEmpty. split; reflexivity.
+Qed.
+
+Lemma timeout_grpc_proof : forall s d, extract_grpc fq s = (Some d, []) <-> grpc_timeout_is s d.
+Proof.
+  intros s d. destruct (extract_grpc_total s) as [(d' & G & E)|(NG & k & _ & E)]; rewrite E.
+  - split.
+    + intros H. inversion H; subst. exact G.
+    + intros G'. rewrite (grpc_timeout_is_fun s d d' G' G). reflexivity.
+  - split; [discriminate|]. intros G. exfalso. apply NG. exists d. exact G.
+Qed.
+
+Lemma timeout_grpc_rejected_proof : forall s,
+  ~ grpc_grammar s <-> exists k, is_timeout_kind k = true /\ extract_grpc fq s = (None, [k]).
+Proof.
+  intros s. destruct (extract_grpc_total s) as [(d' & G & E)|(NG & k & K & E)].
+  - split.
+    + intros NG. exfalso. apply NG. exists d'. exact G.
+    + intros (k & _ & E'). rewrite E in E'. discriminate.
+  - split; [intros _; exists k; auto|intros _; exact NG].
+Qed.
+End Grpc2.
